@@ -114,15 +114,17 @@ func (p *peerTracker) track() {
 		p.done <- struct{}{}
 	}()
 
-	// store peers that have been already connected
-	for _, c := range p.host.Network().Conns() {
-		p.connected(c.RemotePeer())
-	}
-
+	// subscribe first: a peer connecting between the listing of the existing connections below
+	// and a later subscription would be seen by neither and never be tracked
 	subs, err := p.host.EventBus().Subscribe(&event.EvtPeerConnectednessChanged{})
 	if err != nil {
 		log.Errorw("subscribing to EvtPeerConnectednessChanged", "err", err)
 		return
+	}
+
+	// store peers that have been already connected
+	for _, c := range p.host.Network().Conns() {
+		p.connected(c.RemotePeer())
 	}
 
 	for {
@@ -177,6 +179,10 @@ func (p *peerTracker) connected(pID libpeer.ID) {
 
 	p.peerLk.Lock()
 	defer p.peerLk.Unlock()
+	if _, ok := p.trackedPeers[pID]; ok {
+		// seen both among the existing connections and as an event
+		return
+	}
 	// skip adding the peer to avoid overfilling of the peerTracker with unused peers if:
 	// peerTracker reaches the maxTrackerSize and there are more connected peers
 	// than disconnected peers.
